@@ -150,7 +150,7 @@ def run(ctx: Ctx) -> int:
         ctx.cap(f"{capped} types had more byte strings than the per-type cap; a deterministic spread was kept")
     need = {"err:array_length", "err:union_tag", "err:delimiter_header", "ok:truncated", "ok:extended", "ok:valid", "ok:other"}
     if not need <= outcomes and not os.environ.get("VERIF_ONLY_SHARDS"):
-        raise HarnessError(f"vacuous: outcome classes never reached: {sorted(need - outcomes)}")
+        ctx.vacuity(f"reference outcome classes never reached: {sorted(need - outcomes)}", hard=True)  # oracle side
     ctx.stats.update(types=sum(r["types"] for r in results), byte_strings=sum(r["cases"] for r in results), configs=[c.tag for c in cfgs], consumed_equals_spec=sum(r["cexact"] for r in results), consumed_differs_from_spec=sum(r["cother"] for r in results), outcome_classes=sorted(outcomes))
     cov = {
         "evaluations": sum(r["evals"] for r in results),
